@@ -368,7 +368,10 @@ def runPermitted : Conn → List (Env × Op) → Bool
 /-- what C04 demands of a datagram handed to the send callback -/
 def Packet.valid : Packet → Bool
   | .connless d => decide (d.length ≤ P6.connlessMax)
-  | .control ack tok c => decide ((Packet.control ack tok c).wireSize ≤ maxPacketSize)
+  | .control ack tok c => decide ((Packet.control ack tok c).wireSize ≤ maxPacketSize) &&
+      (match c with
+       | .close r => decide (r.length ≤ P6.CTRLMSG_CLOSE_REASON_LENGTH) && r.all (· != 0)
+       | _ => true)
   | .chunks ack tok rr n cs =>
     decide ((Packet.chunks ack tok rr n cs).wireSize ≤ maxPacketSize) && decide (n = cs.length) &&
       decide (cs.length ≤ maxNumChunks) && cs.all (fun c => cfg.accepts c.data.length) &&
